@@ -413,10 +413,10 @@ def c02_deadline(tier, seed):
     rng = random.Random(seed + 2)
     out = []
     for kind in ("fatalf", "errorf", "panic"):
-        slow_fail = [op("nth", text="slow", n=1, body=[op("sleep", ms=6000)]), op(kind, site=1)]
+        slow_fail = [op("nth", text="slow", n=1, body=[op("sleep", ms=8000)]), op(kind, site=1)]
         out.append(scenario("c02-deadline-%s" % kind, {"keyed": True, "cases": {"6": slow_fail}, "default": [draw(g("Bool"), "d")]},
                             {"checks": 100, "seed": rng.randrange(1, 1 << 64), "nofailfile": "true", "shrinktime": "0s"}, entry="makecheck",
-                            name="TestDeadline", tag={"kind": kind, "ctx": "slow case near the test deadline", "pos": "6th", "deadline": True}))
+                            name="TestDeadline", tag={"kind": kind, "ctx": "slow case near the test deadline", "pos": "6th", "deadline": True, "timeout": "12s"}))
     return out
 
 
